@@ -103,7 +103,9 @@ def statsJson (c : Ctx S) : Json :=
 def handleSim (j : Json) : Except String Json := do
   let p ← parseProc (← j.getObjVal? "proc")
   let prog ← (← getArr j "prog").mapM parseInstr
-  let wf := wfProc p
+  -- `wf` = the properties' precondition on the processor AND the program invariant of `HwInstruction` (sources are a
+  -- de-duplicated tuple), which the hazard theorems take as the explicit hypothesis `ProgOK`
+  let wf := wfProc p && prog.all (fun i => decide i.srcs.Nodup)
   let out := simulate p prog
   let (mkind, mtbl, mfault) : String × List (Util S) × String := match out with
     | .done t => ("done", t, "")
